@@ -243,7 +243,7 @@ Section SkelFacts.
   Variable upd : nat -> nat -> st M W X -> M * X.
   Variable stop : nat -> st M W X -> bool.
   Variable normf : st M W X -> st M W X.
-  Variable pre : nat -> st M W X -> st M W X.
+  Variable pre : nat -> nat -> st M W X -> M.
   Variable pre_on : nat -> bool.
   Variable post : nat -> st M W X -> X.
   Variable ls_on : nat -> bool.
@@ -275,11 +275,18 @@ Section SkelFacts.
   Lemma fold_step_wts a it ml : forall l s, wts (fold_left (step a it ml) l s) = wts s.
   Proof. induction l as [|k l IH]; intros s; simpl; [reflexivity|]. now rewrite IH, step_eq. Qed.
 
-  (* what the two hooks must satisfy for mode m (stated for the hooks of the algorithm that has them) *)
-  Definition pre_keeps (a : algo) (m : nat) (d : M) : Prop :=
-    has_hooks a = true -> forall it s, pre_on it = true -> nth m (facs (pre it s)) d = nth m (facs s) d.
-  Definition pre_keeps_length (a : algo) : Prop :=
-    has_hooks a = true -> forall it s, pre_on it = true -> length (facs (pre it s)) = length (facs s).
+  (* the orthogonalise hook skips the modes that are not free *)
+  Lemma pre_apply_other (g : nat -> M) (free : nat -> bool) d : forall fs off m, free (off + m) = false ->
+    nth m (pre_apply g free off fs) d = nth m fs d.
+  Proof.
+    induction fs as [|f fs IH]; intros off m H; [reflexivity|]. cbn [pre_apply]. destruct m as [|m].
+    - rewrite Nat.add_0_r in H. now rewrite H.
+    - cbn [nth]. apply IH. now rewrite Nat.add_succ_comm.
+  Qed.
+  Lemma pre_apply_length (g : nat -> M) (free : nat -> bool) : forall fs off, length (pre_apply g free off fs) = length fs.
+  Proof. induction fs as [|f fs IH]; intros off; simpl; [reflexivity|]. now rewrite IH. Qed.
+
+  (* the line-search candidate formula maps (x, x) to x (for the algorithm that has a line search) *)
   Definition ls_fixpoint (a : algo) : Prop := has_hooks a = true -> forall it s x, lsf it s x x = x.
 
   Lemma ls_point_other it s0 s1 d m : (forall s x, lsf it s x x = x) -> length (facs s1) = length (facs s0) ->
@@ -291,14 +298,14 @@ Section SkelFacts.
     - rewrite !nth_overflow; auto; try lia. rewrite length_map2. lia.
   Qed.
 
-  (* one iteration of the loop body leaves the factor of a mode outside the sweep list where it was *)
-  Lemma iterate_other a ml d m : ~ In m ml -> pre_keeps a m d -> ls_fixpoint a -> forall b it s,
-    nth m (facs (iterate a b it ml s)) d = nth m (facs s) d.
+  (* the loop leaves the factor of a mode that is neither free for the hook nor in the sweep list where it was *)
+  Lemma iterate_other a free ml d m : ~ In m ml -> free m = false -> ls_fixpoint a -> forall b it s,
+    nth m (facs (iterate a free b it ml s)) d = nth m (facs s) d.
   Proof.
-    intros Hn Hpre Hls. induction b as [|b IH]; intros it s; cbn [WarmStart.iterate]; [reflexivity|].
-    set (s0 := if has_hooks a && pre_on it then pre it s else s).
+    intros Hn Hfree Hls. induction b as [|b IH]; intros it s; cbn [WarmStart.iterate]; [reflexivity|].
+    set (s0 := if has_hooks a && pre_on it then pre_state pre free it s else s).
     assert (H0 : nth m (facs s0) d = nth m (facs s) d).
-    { unfold s0. destruct (has_hooks a) eqn:Eh; cbn [andb]; [|reflexivity]. destruct (pre_on it) eqn:Ep; [|reflexivity]. now apply Hpre. }
+    { unfold s0. destruct (has_hooks a && pre_on it); [|reflexivity]. unfold pre_state; cbn [facs]. now apply pre_apply_other. }
     set (sw := sweep a it ml s0).
     assert (Hsw : nth m (facs sw) d = nth m (facs s0) d) by (apply fold_step_other; exact Hn).
     set (s1 := mkst (wts sw) (facs sw) (post it sw)).
@@ -309,12 +316,12 @@ Section SkelFacts.
       apply ls_point_other; [intros; now apply Hls | apply fold_step_length | exact Hsw]. }
     destruct (stop it s2); [| rewrite IH]; congruence.
   Qed.
-  Lemma iterate_length a ml : pre_keeps_length a -> forall b it s, length (facs (iterate a b it ml s)) = length (facs s).
+  Lemma iterate_length a free ml : forall b it s, length (facs (iterate a free b it ml s)) = length (facs s).
   Proof.
-    intros Hpre. induction b as [|b IH]; intros it s; cbn [WarmStart.iterate]; [reflexivity|].
-    set (s0 := if has_hooks a && pre_on it then pre it s else s).
+    induction b as [|b IH]; intros it s; cbn [WarmStart.iterate]; [reflexivity|].
+    set (s0 := if has_hooks a && pre_on it then pre_state pre free it s else s).
     assert (H0 : length (facs s0) = length (facs s)).
-    { unfold s0. destruct (has_hooks a) eqn:Eh; cbn [andb]; [|reflexivity]. destruct (pre_on it) eqn:Ep; [|reflexivity]. now apply Hpre. }
+    { unfold s0. destruct (has_hooks a && pre_on it); [|reflexivity]. unfold pre_state; cbn [facs]. apply pre_apply_length. }
     set (sw := sweep a it ml s0).
     assert (Hsw : length (facs sw) = length (facs s0)) by apply fold_step_length.
     set (s1 := mkst (wts sw) (facs sw) (post it sw)).
@@ -326,8 +333,8 @@ Section SkelFacts.
   Qed.
   (* without hooks (every algorithm but parafac) an empty sweep list leaves weights and factors alone; the bookkeeping
      (error history) still moves *)
-  Lemma iterate_nil a : has_hooks a = false -> forall b it s,
-    facs (iterate a b it [] s) = facs s /\ wts (iterate a b it [] s) = wts s.
+  Lemma iterate_nil a free : has_hooks a = false -> forall b it s,
+    facs (iterate a free b it [] s) = facs s /\ wts (iterate a free b it [] s) = wts s.
   Proof.
     intros Hh. induction b as [|b IH]; intros it s; cbn [WarmStart.iterate]; [split; reflexivity|].
     rewrite Hh. cbn [andb]. change (sweep a it [] s) with s.
@@ -335,32 +342,32 @@ Section SkelFacts.
     rewrite H1, H2. split; reflexivity.
   Qed.
 
-  (* fixed modes: every budget, every update rule, every stopping decision, mask / sparsity / dual bookkeeping, line search;
-     the orthogonalise hook only if it leaves the mode alone *)
-  Theorem run_fixed_hooks a n fixed budget tol s s' d m :
-    pre_keeps a m d -> ls_fixpoint a ->
+  (* fixed modes: every budget, every update rule, every stopping decision, mask / sparsity / dual bookkeeping, the
+     orthogonalise hook (it skips fixed modes since ef1ea18), line search with a candidate formula fixing equal arguments *)
+  Theorem run_fixed a n fixed budget tol s s' d m : ls_fixpoint a ->
     run a n fixed budget tol s = Ok s' -> In m (eff_fixed a n fixed) ->
     nth m (facs s') d = nth m (facs s) d.
   Proof.
-    intros Hpre Hls. unfold WarmStart.run. destruct (shortcut a && list_eqb fixed (seq 0 n)); [intros [= <-]; reflexivity|].
+    intros Hls. unfold WarmStart.run. destruct (shortcut a && list_eqb fixed (seq 0 n)); [intros [= <-]; reflexivity|].
     destruct (empty_returns a && (length (modes_list a n fixed) =? 0)); [intros [= <-]; reflexivity|].
     destruct (needs_mode a tol && (0 <? budget) && (length (modes_list a n fixed) =? 0)); [discriminate|].
-    intros [= <-] Hin. apply iterate_other; auto. intros H. apply modes_list_In in H. tauto.
+    intros [= <-] Hin. apply iterate_other; auto.
+    - intros H. apply modes_list_In in H. tauto.
+    - apply negb_false_iff. now apply memb_In.
   Qed.
 
-  Theorem run_fixed_user_hooks a n fixed budget tol s s' d m :
-    pre_keeps a m d -> ls_fixpoint a ->
+  Theorem run_fixed_user a n fixed budget tol s s' d m : ls_fixpoint a ->
     run a n fixed budget tol s = Ok s' -> In m fixed -> (drops_last a = true -> m <> n - 1) ->
     nth m (facs s') d = nth m (facs s) d.
-  Proof. intros Hp Hl H Hin Hlast. eapply run_fixed_hooks; eauto. now apply eff_fixed_keeps. Qed.
+  Proof. intros Hl H Hin Hlast. eapply run_fixed; eauto. now apply eff_fixed_keeps. Qed.
 
-  Theorem run_shape a n fixed budget tol s s' : pre_keeps_length a ->
+  Theorem run_shape a n fixed budget tol s s' :
     run a n fixed budget tol s = Ok s' -> length (facs s') = length (facs s).
   Proof.
-    intros Hpre. unfold WarmStart.run. destruct (shortcut a && list_eqb fixed (seq 0 n)); [intros [= <-]; auto|].
+    unfold WarmStart.run. destruct (shortcut a && list_eqb fixed (seq 0 n)); [intros [= <-]; auto|].
     destruct (empty_returns a && (length (modes_list a n fixed) =? 0)); [intros [= <-]; auto|].
     destruct (needs_mode a tol && (0 <? budget) && (length (modes_list a n fixed) =? 0)); [discriminate|].
-    intros [= <-]. now apply iterate_length.
+    intros [= <-]. apply iterate_length.
   Qed.
 
   Theorem run_all_fixed_shortcut a n budget tol s : shortcut a = true -> run a n (seq 0 n) budget tol s = Ok s.
@@ -377,32 +384,6 @@ Section SkelFacts.
     intros [= <-]. now apply iterate_nil.
   Qed.
 End SkelFacts.
-
-(* the hooks off, or an algorithm without hooks: the plain statements *)
-Section SkelPlain.
-  Context {M W X : Type}.
-  Variable upd : nat -> nat -> st M W X -> M * X.
-  Variable stop : nat -> st M W X -> bool.
-  Variable normf : st M W X -> st M W X.
-  Variable pre : nat -> st M W X -> st M W X.
-  Variable post : nat -> st M W X -> X.
-  Variable ls_on : nat -> bool.
-  Variable ls_accept : nat -> st M W X -> st M W X -> bool.
-  Variable lsf : nat -> st M W X -> M -> M -> M.
-  Variable lsw : nat -> st M W X -> W -> W -> W.
-  Variable lsx : nat -> st M W X -> st M W X -> X.
-
-  (* orthogonalise off (the default), any line-search setting whose candidate formula fixes equal arguments *)
-  Theorem run_fixed a n fixed budget tol s s' d m : (has_hooks a = true -> forall it s x, lsf it s x x = x) ->
-    run upd stop normf false pre (fun _ => false) post ls_on ls_accept lsf lsw lsx a n fixed budget tol s = Ok s' ->
-    In m (eff_fixed a n fixed) -> nth m (facs s') d = nth m (facs s) d.
-  Proof. intros Hls. apply run_fixed_hooks; [intros _ it s0 H; discriminate | exact Hls]. Qed.
-
-  Theorem run_fixed_user a n fixed budget tol s s' d m : (has_hooks a = true -> forall it s x, lsf it s x x = x) ->
-    run upd stop normf false pre (fun _ => false) post ls_on ls_accept lsf lsw lsx a n fixed budget tol s = Ok s' ->
-    In m fixed -> (drops_last a = true -> m <> n - 1) -> nth m (facs s') d = nth m (facs s) d.
-  Proof. intros Hls. apply run_fixed_user_hooks; [intros _ it s0 H; discriminate | exact Hls]. Qed.
-End SkelPlain.
 
 (* zero budget: for every normalisation setting and every hook *)
 Theorem run_zero_budget {M W X} upd stop normf normalize pre pre_on post ls_on ls_accept lsf lsw lsx a n fixed tol (s : st M W X) :
